@@ -1,5 +1,5 @@
 (* C13 — property theorems only. *)
-From C13 Require Import Model Spec Corr Proofs ProofsRes ProofsRefine Regress.
+From C13 Require Import Model Spec Corr Proofs ProofsRes ProofsRefine ProofsX Regress.
 Open Scope N_scope.
 
 (* (1) In any package a name resolves to the package's own definition if it has one, otherwise to an
@@ -147,3 +147,65 @@ Print Assumptions C13_regression_lambda_patch.
 Theorem C13_regression_defun_inherited : check_case regress_defun_inherited = 0%N.
 Proof. exact regress_defun_inherited_ok. Qed.
 Print Assumptions C13_regression_defun_inherited.
+
+(* (6) QUALIFIED WRITES (added after seeded change C13-13 was missed): (setq p:n v), (setq p::n v),
+   (defvar p:n v), (defvar p::n v) evaluated with any current package enter M (Scope.Set on a qualified
+   symbol, defvar with UnpackName, Package.Set / SetIfHas with the private flag) and S (p:n reaches what p
+   exports, p::n any definition of p, for writing as for reading).  The refinement extends to every history
+   over the 10 operations AND the four qualified writes: every guarded step preserves the abstraction
+   relation, for any package and name universe *)
+Theorem C13_xstep_preserves_relation : forall P NM m s o,
+  Inv P NM m s -> xguard_step P NM s o = true -> Inv P NM (xstep m o) (sxstep s o).
+Proof. exact xstep_preserves. Qed.
+Print Assumptions C13_xstep_preserves_relation.
+
+(* hence after ANY guarded history with qualified writes every query answers the same in M and in S *)
+Theorem C13_xrefinement_general : forall P NM PQ VN FN p0 ops,
+  xguard_run P NM (sinit p0) ops = true ->
+  xrun PQ VN FN (init p0) ops = sxrun PQ VN FN (sinit p0) ops.
+Proof. exact xrefinement_general. Qed.
+Print Assumptions C13_xrefinement_general.
+
+(* on the longest guarded prefix of an arbitrary history (what Corr.xcheck_case evaluates per run) *)
+Theorem C13_xrefinement_prefix : forall ops,
+  let g := xguard_prefix PK NM (sinit 0) ops in
+  firstn g (xrun PK VN FN (init 0) ops) = firstn g (sxrun PK VN FN (sinit 0) ops).
+Proof. exact xrefinement_prefix_PK. Qed.
+Print Assumptions C13_xrefinement_prefix.
+
+Theorem C13_xselfcheck_unreachable : forall c, xcheck_case c <> 3.
+Proof. exact xselfcheck_unreachable. Qed.
+Print Assumptions C13_xselfcheck_unreachable.
+
+(* law of S, all states: a write through ONE colon, made from another package, never changes a variable the
+   package keeps private ("pkg:name reaches exported" for writes) *)
+Theorem C13_single_colon_write_leaves_private : forall s p n v a vv,
+  resolve_v s p n = Some a -> s_vheap s a = Some vv -> vv_export vv = false -> N.eqb (s_cur s) p = false ->
+  s_setq_q s p n v false = s /\ s_defvar_q s p n v false = s.
+Proof. exact s_single_colon_leaves_private. Qed.
+Print Assumptions C13_single_colon_write_leaves_private.
+
+(* law of S, all states: a qualified defvar never changes a variable that has a value *)
+Theorem C13_qualified_defvar_keeps_bound : forall s p n v priv a vv x,
+  resolve_v s p n = Some a -> s_vheap s a = Some vv -> vv_val vv = Some x -> s_defvar_q s p n v priv = s.
+Proof. exact s_defvar_q_keeps_bound. Qed.
+Print Assumptions C13_qualified_defvar_keeps_bound.
+
+(* the one clause of the extended guard that excludes something: known finding
+   C13-defvar-private-qualified-overwrites.  In package 0 (setq vx 1); in package 1 (defvar 0::vx 9): the first
+   two steps are guarded, the third is not, M (= the code) then answers 9 for 0::vx where S answers 1 *)
+Theorem C13_defvar_private_qualified_overwrites_refuted :
+  xguard_prefix PK NM (sinit 0%N) defvar_q_witness = 2%nat /\
+  list_eqb (list_eqb qres_eqb) (xrun PK VN FN (init 0%N) defvar_q_witness) (sxrun PK VN FN (sinit 0%N) defvar_q_witness) = false /\
+  q_var_q (fold_left xstep defvar_q_witness (init 0%N)) 0%N 0%N true = QVal 9%Z /\
+  sq_var_q (fold_left sxstep defvar_q_witness (sinit 0%N)) 0%N 0%N true = QVal 1%Z.
+Proof. exact defvar_private_qualified_overwrites_refuted. Qed.
+Print Assumptions C13_defvar_private_qualified_overwrites_refuted.
+
+(* non-vacuity: all four qualified writes, acting on exported, private, unbound and absent targets, inside the guard *)
+Theorem C13_xguard_nonvacuous :
+  xguard_run PK NM (sinit 0%N) xnonvac = true /\
+  (let s := fold_left sxstep xnonvac (sinit 0%N) in
+   sq_var_q s 0%N 0%N false = QVal 3%Z /\ sq_var_q s 0%N 1%N true = QVal 5%Z /\ sq_var_q s 2%N 1%N true = QVal 8%Z).
+Proof. exact xguard_nonvacuous. Qed.
+Print Assumptions C13_xguard_nonvacuous.
